@@ -221,7 +221,7 @@ fn replay(path: &str, worker: bool) -> i32 {
     // every replay is executed twice and must give identical observations
     let run = || -> Result<explore::Acc, String> {
         match kind {
-            "state" => props::core::replay_state(&prop, r),
+            "state" | "c01-real-perft" => props::core::replay_state(&prop, r),
             "c05-variant" | "c05-collision" | "c05-reached" => props::c05::replay(r),
             "c12-string" => props::c12::replay(r),
             "c17-string" => props::c17::replay(r),
@@ -233,7 +233,7 @@ fn replay(path: &str, worker: bool) -> i32 {
             "e5-schedule" if prop == "C19" => props::c19::replay(r),
             "e5-schedule" | "c14-deep" | "c14-grammar" | "c14-real" => props::c14::replay(r, &props::c14::oracle),
             "c13-case" => props::c13::replay(r),
-            "c15-mobility" | "c15-stack" | "c15-autoplay" => props::c15::replay(r),
+            "c15-mobility" | "c15-stack" | "c15-autoplay" | "c15-real-auto" => props::c15::replay(r),
             "c19-history" | "c19-process" | "c19-inert" | "c19-real" => props::c19::replay(r),
             _ => Err(format!("unknown replay kind {:?}", kind)),
         }
